@@ -14,7 +14,7 @@ ID = "C10"
 LEVEL = "exploration"
 # a run stuck inside C code (beyond the reach of a Python signal handler) is
 # cut off by a watchdog thread after this many seconds (core._hard_hangs)
-RUN_HARD_TIMEOUT = 45
+RUN_HARD_TIMEOUT = 90
 RULE = ("each run = one curve, one key, 8-16 deliveries; each delivery is a "
         "valid encoding (public key raw/uncompressed/compressed/hybrid, DER, "
         "PEM; private key raw, ssleay/pkcs8 DER/PEM; signature raw/pair/DER) "
